@@ -1454,6 +1454,33 @@ def _unknown() -> ast.expr:
     return ast.Name(id=UNKNOWN, ctx=ast.Load())
 
 
+def _is_generator(h: Any) -> bool:
+    """a function whose own body (nested functions apart) yields"""
+    todo = list(h.node.body)
+    while todo:
+        n = todo.pop()
+        if isinstance(n, (ast.Yield, ast.YieldFrom)):
+            return True
+        if not isinstance(n, (ast.FunctionDef, ast.AsyncFunctionDef, ast.Lambda, ast.ClassDef)):
+            todo += list(ast.iter_child_nodes(n))
+    return False
+
+
+def _constant_test(t: ast.AST) -> bool | None:
+    """the truth value of a test made of constants only (`not`, `and`, `or` included); None when it depends on anything"""
+    if isinstance(t, ast.Constant):
+        return bool(t.value)
+    if isinstance(t, ast.UnaryOp) and isinstance(t.op, ast.Not):
+        v = _constant_test(t.operand)
+        return None if v is None else not v
+    if isinstance(t, ast.BoolOp):
+        vals = [_constant_test(v) for v in t.values]
+        if isinstance(t.op, ast.And):
+            return False if any(v is False for v in vals) else True if all(v is True for v in vals) else None
+        return True if any(v is True for v in vals) else False if all(v is False for v in vals) else None
+    return None
+
+
 class State:
     __slots__ = ("env", "conds")
 
@@ -1591,6 +1618,7 @@ class SymExec:
         self.exits: list[tuple[State, ast.AST]] = []                  # of the outermost function: (final state, returned value)
         self.hit_env: dict[int, dict[str, ast.AST]] = {}              # id(watched call) -> what the locals held where it was met
         self._helpers: dict[str, dict[str, Any]] = {}
+        self._sinks: list[list[tuple[State, ast.AST]]] = []           # of the generator helpers being executed: what they yield
 
     def run(self, f: Any, bound: dict[str, ast.AST] | None = None, conds: tuple[Cond, ...] = (), depth: int = 0) -> list[tuple[tuple[Cond, ...], ast.AST]]:
         """(path condition, returned value) of every path that returns"""
@@ -1654,6 +1682,36 @@ class SymExec:
         h = self._helper(v, f)
         if h is None or depth >= self.inline_depth or any(isinstance(a, ast.Starred) for a in v.args) or any(k.arg is None for k in v.keywords):
             return [(s, v)]
+        if _is_generator(h):
+            return [(s, v)]  # calling it runs nothing: its body runs where the result is iterated (see yielded)
+        bound, outer = self._helper_frame(h, v, s, f)
+        out = []
+        for c, rv in self.run(h, bound, s.conds, depth + 1):
+            s2 = State(dict(s.env), c)
+            for cell in outer & _touched(h.node.body):
+                self._forget(s2, cell)
+            out.append((s2, rv))
+        return out
+
+    def yielded(self, v: ast.AST, s: State, f: Any, depth: int) -> list[tuple[State, ast.AST]] | None:
+        """`for x in <helper>(...)` where the helper is a generator function: x is, in turn, each value the helper yields - (state with the
+        path condition under which it is yielded, the value); None when v is not such a call"""
+        h = self._helper(v, f)
+        if h is None or depth >= self.inline_depth or any(isinstance(a, ast.Starred) for a in v.args) or any(k.arg is None for k in v.keywords) \
+                or not _is_generator(h):
+            return None
+        bound, _ = self._helper_frame(h, v, s, f)
+        sink: list[tuple[State, ast.AST]] = []
+        self._sinks.append(sink)
+        try:
+            self.run(h, bound, s.conds, depth + 1)
+        finally:
+            self._sinks.pop()
+        return [(State(dict(s.env), ys.conds), yv) for ys, yv in sink]
+
+    def _helper_frame(self, h: Any, v: ast.Call, s: State, f: Any) -> tuple[dict[str, ast.AST], set[str]]:
+        """what the names of helper h stand for when it is entered through call v (made in f, state s), and the enclosing function's
+        cells it declares nonlocal"""
         a = h.node.args
         names = [p.arg for p in [*a.posonlyargs, *a.args, *a.kwonlyargs]]
         if h.kind in ("method", "classmethod"):
@@ -1681,13 +1739,7 @@ class SymExec:
         if h.kind == "method" and f.kind == "method" and isinstance(v.func, ast.Attribute) and norm(v.func.value) == f.params[0].arg:
             # the same object: what the caller knows about its attributes holds in the helper
             bound.update({f"{h.params[0].arg}.{k.split('.', 1)[1]}": val for k, val in s.env.items() if k.startswith(f.params[0].arg + ".")})
-        out = []
-        for c, rv in self.run(h, bound, s.conds, depth + 1):
-            s2 = State(dict(s.env), c)
-            for cell in outer & _touched(h.node.body):
-                self._forget(s2, cell)
-            out.append((s2, rv))
-        return out
+        return bound, outer
 
     # -- statements -----------------------------------------------------------------------------------------------------------------
     def _block(self, body: list[ast.stmt], states: list[State], rets: list, f: Any, depth: int) -> list[State]:
@@ -1762,6 +1814,44 @@ class SymExec:
         out.update({kw.arg: kw.value for kw in val.keywords if kw.arg in fields})
         return out
 
+    def _tuple_items(self, val: ast.AST, f: Any) -> list[ast.AST] | None:
+        """the items a value unpacks into: the elements of a tuple / list display, the fields (in declaration order) of a NamedTuple of the
+        package that is constructed with all of them"""
+        if isinstance(val, (ast.Tuple, ast.List)):
+            return list(val.elts)
+        rec = self._record(val, f)
+        if rec is None:
+            return None
+        k = self.ix.resolve(f.module, call_name(val))[1]
+        fields = list(self.ix.all_fields(k))
+        if not any(b.rsplit(".", 1)[-1] == "NamedTuple" for b in self.ix.ext_bases(k)) or any(x not in rec for x in fields):
+            return None
+        return [rec[x] for x in fields]
+
+    def _decide_type_tests(self, t: ast.AST, f: Any) -> ast.AST:
+        """the test with every `isinstance(<C(...)>, D)` whose answer follows from the classes alone (C, D classes of the package, the object
+        being constructed right there) replaced by that answer"""
+        ix = self.ix
+
+        def klass(e: ast.AST) -> Any:
+            r = ix.resolve(f.module, norm(e)) if isinstance(e, (ast.Name, ast.Attribute)) and UNKNOWN not in names_in(e) else None
+            return r[1] if r and r[0] == "class" else None
+
+        class T(ast.NodeTransformer):
+            def visit_Call(self, n: ast.Call) -> ast.AST:
+                if call_name(n) == "isinstance" and len(n.args) == 2 and not n.keywords and isinstance(n.args[0], ast.Call):
+                    c = klass(n.args[0].func)
+                    ds = [klass(d) for d in (n.args[1].elts if isinstance(n.args[1], ast.Tuple) else [n.args[1]])]
+                    if c is not None and ds and all(d is not None for d in ds) and ix.find_method(c, "__new__") is None:
+                        quals = {k.qual for k in ix.mro(c)}
+                        return ast.copy_location(ast.Constant(value=any(d.qual in quals for d in ds)), n)
+                return self.generic_visit(n)
+
+        if not any(isinstance(n, ast.Call) and call_name(n) == "isinstance" for n in ast.walk(t)):
+            return t
+        import copy
+        return T().visit(copy.deepcopy(t))
+
     def _bind(self, t: ast.AST, val: ast.AST, s: State, f: Any = None) -> None:
         if isinstance(t, ast.Name):
             self._forget(s, t.id)
@@ -1772,9 +1862,10 @@ class SymExec:
             self._forget(s, f"{t.value.id}.{t.attr}")
             s.env[f"{t.value.id}.{t.attr}"] = val
         elif isinstance(t, (ast.Tuple, ast.List)):
-            if isinstance(val, (ast.Tuple, ast.List)) and len(val.elts) == len(t.elts) and not any(isinstance(x, ast.Starred) for x in [*t.elts, *val.elts]):
-                for te, ve in zip(t.elts, val.elts):
-                    self._bind(te, ve, s)
+            items = self._tuple_items(val, f)
+            if items is not None and len(items) == len(t.elts) and not any(isinstance(x, ast.Starred) for x in [*t.elts, *items]):
+                for te, ve in zip(t.elts, items):
+                    self._bind(te, ve, s, f)
             else:
                 for te in t.elts:
                     self._bind(te, _unknown(), s)
@@ -1823,10 +1914,18 @@ class SymExec:
                 self._bind(st.target, _unknown(), s2)
             return [s2]
         if isinstance(st, ast.If):
-            t = substitute(st.test, s.env)
+            t = self._decide_type_tests(substitute(st.test, s.env), f)
             s2 = s.fork()
             self._method_effects(st, s2, f)
+            known = _constant_test(t)
+            if known is not None:  # decided by what the value is (an object just constructed is / is not of a class): one branch exists
+                return self._block(st.body if known else st.orelse, [s2], rets, f, depth)
             return self._block(st.body, [s2.fork((t, True))], rets, f, depth) + self._block(st.orelse, [s2.fork((t, False))], rets, f, depth)
+        if isinstance(st, ast.Expr) and isinstance(st.value, (ast.Yield, ast.YieldFrom)):
+            if self._sinks and depth > 0:
+                yv = substitute(st.value.value, s.env) if st.value.value is not None else ast.Constant(value=None)
+                self._sinks[-1].append((s, _element(yv) if isinstance(st.value, ast.YieldFrom) else yv))
+            return [s]
         if isinstance(st, ast.Return):
             v = substitute(st.value, s.env) if st.value is not None else ast.Constant(value=None)
             for s2, val in self.values(v, s, f, depth):
@@ -1858,6 +1957,13 @@ class SymExec:
                 if isinstance(b, ast.stmt) and b is not st:
                     self._method_effects(b, s2, f)
             self._method_effects(st, s2, f)
+            ys = self.yielded(substitute(st.iter, s2.env), s2, f, depth) if not isinstance(st, ast.While) else None
+            if ys is not None:
+                # a loop over a generator helper: the body runs for each value the helper yields, under the condition it is yielded
+                for ystate, yv in ys:
+                    self._bind(st.target, yv, ystate, f)
+                    self._block(st.body, [ystate], rets, f, depth)
+                return self._block(st.orelse, [s2], rets, f, depth) if st.orelse else [s2]
             inner = s2.fork()
             if not isinstance(st, ast.While):
                 self._bind_loop_target(st.target, substitute(st.iter, s2.env), inner)
